@@ -127,6 +127,14 @@ def e1_safe(run, acc, inst="A3"):
     acc.add_e1(f"MC_Safe[{inst}] (Sodg refines SodgSafe)", r)
 
 
+def e1_safe_r(run, acc, inst):
+    """the same refinement on a restricted alphabet (several groups, cross-group edges: link classes larger than groups)"""
+    cfg = (f"SPECIFICATION HSpec\nVIEW hview\n" + consts(inst, "Extra = {}" + r_consts(inst))
+           + "INVARIANT TypeOK\nINVARIANT GroupsAreLinked\nPROPERTY RefinesSafe\nCHECK_DEADLOCK FALSE\n")
+    r = vlib.model_check(run, "MC_SafeR", cfg)
+    acc.add_e1(f"MC_SafeR[{inst}] (Sodg on a restricted alphabet refines SodgSafe)", r)
+
+
 def cfg_impl(rules, cap=3, nslots=4, slotsize=3, labels=("a",), vals=("x",), maxn=1):
     return (f"SPECIFICATION ISpec\nVIEW iview\nCONSTANTS Cap = {cap} Labels = {tla_set(labels)} Vals = {tla_set(vals)} MaxN = {maxn} "
             f"NSlots = {nslots} SlotSize = {slotsize} Rules = \"{rules}\"\n"
@@ -142,6 +150,13 @@ def e1_impl(run, acc, tier):
     if r2["ok"]:
         raise ToolError("vacuity: SodgImpl with the pinned tree's rules was accepted; the refinement check is not discriminating")
     acc.add_e1("SodgImpl[tree rules] (must be rejected)", r2, expect_error=True)
+    # five ids on a restricted alphabet, two usable slots of three: more groups wanted than slots exist, slots are re-used
+    cfg_r = ("SPECIFICATION ISpecR\nVIEW iview\nCONSTANTS Cap = 5 Labels = {\"a\"} Vals = {\"x\"} MaxN = 1 NSlots = 4 SlotSize = 3 Rules = \"fixed\"\n"
+             " BindPairs = {1, 23, 2, 31, 4, 34} PutIds = {1, 3, 4} DataIds = {1, 3, 4} AddIds = {0, 1, 2, 3, 4}\n"
+             "INVARIANT NoPanic\nINVARIANT CounterIsRecount\nINVARIANT TagsMatchLists\nINVARIANT ReservedKept\nINVARIANT OccupiedIsGroups\n"
+             "INVARIANT NoDuplicateMembers\nPROPERTY RefinesSodg\nCHECK_DEADLOCK FALSE\n")
+    rr = vlib.model_check(run, "MC_ImplR", cfg_r)
+    acc.add_e1("MC_ImplR[fixed, 5 ids restricted, 2 usable slots of 3] refines Sodg", rr)
     if tier == "thorough":
         r3 = vlib.model_check(run, "SodgImpl", cfg_impl("fixed", cap=4, nslots=4, slotsize=3), timeout=3000)
         acc.add_e1("SodgImpl[fixed, 4 ids] refines Sodg", r3)
@@ -307,6 +322,8 @@ def plan_gc(run, prop, tier):
     e1_sodg(run, acc, "A3")
     if prop == "C01":
         e1_safe(run, acc, "A3")
+        e1_safe_r(run, acc, "F4a")
+        e1_safe_r(run, acc, "F5")
     if prop in ("C02", "C06"):
         e1_impl(run, acc, tier)
     if prop == "C03":
